@@ -437,7 +437,9 @@ Section LB.
   Definition yank_pop (yank_size : nat) (text : str) : M (option bool) :=
     do b <- get;
     let e := pos b in
-    if Nat.ltb e yank_size then fail         (* end - yank_size underflows *)
+    (* end.checked_sub(yank_size)?, then the start must be a character boundary (repair of F22) *)
+    if Nat.ltb e yank_size then ret None
+    else if negb (is_boundary (buf b) (e - yank_size)) then ret None
     else
       do _ <- drain (e - yank_size) e DForward;
       put_pos (e - yank_size) ;;
